@@ -244,7 +244,8 @@ func walkString(s string, f func(i int, p lsp.Position) bool) {
 	lastCR := false
 
 	for i, r := range s {
-		if !f(i, p) {
+		// The \n of a \r\n sequence is not a position of its own: don't visit it.
+		if !(lastCR && r == '\n') && !f(i, p) {
 			return
 		}
 		switch {
